@@ -83,13 +83,13 @@ RD_ASSUME = ["mtbl/block.c replaced by its abstract contract (block = strictly i
              "arbitrary iterator state satisfying the representation invariant RI => every history of next/seek calls on that iterator",
              "mtbl_crc32c / mtbl_decompress replaced by capturing stubs (own contracts: C17, C15)"]
 RD_SRC = ["tu/reader_step.c", "$REPO/mtbl/source.c", "$REPO/mtbl/varint.c", "$REPO/mtbl/fixed.c", "$REPO/mtbl/metadata.c"]
-add("rd_seek_step", ["C03", "C02", "C01", "C11", "C12", "C18"], RD_SRC, "h_reader_seek_step", unwind=11, timeout=900, slice=4,
+add("rd_seek_step", ["C03", "C02", "C01", "C11", "C12", "C18", "C05"], RD_SRC, "h_reader_seek_step", unwind=11, timeout=900, slice=4,
     strength="B: seek(k) then next x4 from an arbitrary iterator state over a symbolic table of <= 3 blocks x <= 3 entries, keys <= 2 bytes",
     functions=RD_FUNCS, assumptions=RD_ASSUME, replay="c03")
 add("rd_next_step", ["C03", "C01", "C11", "C12", "C18"], RD_SRC, "h_reader_next_step", unwind=11, timeout=900, slice=4,
     strength="B: next x2 from an arbitrary iterator state over a symbolic table of <= 3 blocks x <= 3 entries, keys <= 2 bytes",
     functions=RD_FUNCS, assumptions=RD_ASSUME, replay="c03")
-add("rd_lookup", ["C02", "C01", "C11", "C12", "C18"], RD_SRC, "h_reader_lookup", unwind=11, timeout=900, slice=4,
+add("rd_lookup", ["C02", "C01", "C11", "C12", "C18", "C05"], RD_SRC, "h_reader_lookup", unwind=11, timeout=900, slice=4,
     strength="B: iter/get/get_prefix/get_range with symbolic queries, drained (<= 5 next), symbolic table of <= 3 blocks x <= 3 entries, keys <= 2 bytes",
     functions=RD_FUNCS, assumptions=RD_ASSUME, replay="c02")
 # ---------------------------------------------------------------- block.c against the abstract block contract
@@ -125,13 +125,13 @@ MG_FUNCS = ["merger_iter_next", "merger_iter_seek", "entry_fill", "_mtbl_merger_
             "siftdown", "siftup", "bytes_compare", "ubuf_*"]
 MG_ASSUME = ["sources: 2 user-defined iterators over symbolic strictly increasing arrays of <= 2 entries, keys of 0 or 1 byte (empty key included), buffers overwritten on every call",
              "arbitrary merger-iterator state satisfying invariant M (heap = next unconsumed entry of every live source, any valid heap arrangement; remembered key separates consumed from unconsumed entries) => every history of next/seek",
-             "mtbl/iter.c's dispatchers (mtbl_iter_next/seek/destroy) modelled directly by the source iterators", "merge function = 16-bit addition over distinct powers of 4 (identifies the multiset of values used); dupsort not set"]
+             "mtbl/iter.c's dispatchers (mtbl_iter_next/seek/destroy) modelled directly by the source iterators", "merge function = arbitrary results of length 0..2 checking the fold discipline (values identify their entry); no-merge mode with and without a dupsort function (arbitrary total preorder on values)"]
 MG_SRC = ["tu/merger_step.c"]
 MG_UW = {"siftdown.0": 2, "siftup.0": 2, "merger_iter_next.0": 4, "merger_iter_next.1": 6, "heap_heapify.0": 2, "ubuf_reserve.0": 2, "entry_vec_add.0": 2,
          "merger_iter_seek.0": 4, "merger_iter_seek.1": 4}
-add("mg_next_step", ["C04", "C05"], MG_SRC, "h_merger_next_step", unwind=4, unwindset=MG_UW, timeout=900, slice=3,
+add("mg_next_step", ["C04", "C05", "C06"], MG_SRC, "h_merger_next_step", unwind=4, unwindset=MG_UW, timeout=900, slice=3,
     strength="B: one merger next from an arbitrary state; 2 sources x <= 2 entries, keys <= 1 byte (empty key included)", functions=MG_FUNCS, assumptions=MG_ASSUME, replay="c04")
-add("mg_fail_step", ["C04"], MG_SRC, "h_merger_fail_step", unwind=4, unwindset=MG_UW, timeout=900,
+add("mg_fail_step", ["C04", "C06"], MG_SRC, "h_merger_fail_step", unwind=4, unwindset=MG_UW, timeout=900,
     strength="B: one merger next with a failing merge function from an arbitrary state; 2 sources x <= 2 entries", functions=MG_FUNCS, assumptions=MG_ASSUME, replay="c04")
 add("mg_seek_step", ["C05", "C04"], MG_SRC, "h_merger_seek_step", unwind=4, unwindset=MG_UW, timeout=900, slice=2,
     strength="B: merger seek(k) then next from an arbitrary state; 2 sources x <= 2 entries, keys <= 1 byte (empty key included)", functions=MG_FUNCS, assumptions=MG_ASSUME, replay="c04")
@@ -256,3 +256,19 @@ add("sep_dfcc", ["C09", "C02", "C01"], ["tu/sep_dfcc.c"], "h_sep_dfcc", mode="df
     replace=["bytes_compare/bytes_compare__any"], loops="loops/sep.json", unwind=8, timeout=600, strength="U", functions=["bytes_shortest_separator"],
     assumptions=["keys of any length <= 2^40; the closing assert(bytes_compare(start, limit) < 0) is a permitted loud stop here (that it cannot fire follows from E1-E3 and the definition of the order; confirmed with the real comparator for keys <= 4 bytes in wr_add_step)",
                  "glue (definition of the bytewise order): each of E1 (with start < limit at the call site), E2, E3 is a key k with start <= k < limit"])
+# ---------------------------------------------------------------- C20 at module level: faults anywhere during add / close
+for h in ("add", "close"):
+    add(f"wr_{h}_fault", ["C20", "C10", "C09"], ["tu/writer_step.c", "$REPO/mtbl/varint.c"], f"h_writer_{h}_fault", unwind=12, defines=["VG_WRITE_FAULTS=2"], timeout=900,
+        strength=f"B: one mtbl_writer_{'add' if h == 'add' else 'destroy'} from an arbitrary writer state with <= 2 write(2) fault events (EINTR, short write of any length, hard error) placed anywhere; key length <= 4",
+        functions=WR_STEP_FUNCS + (["mtbl_writer_destroy", "_mtbl_writer_finish"] if h == "close" else []), assumptions=WR_STEP_ASSUME[:3] + ["POSIX write(2): -1 with an errno, or 1..count bytes accepted"], replay="c20")
+# ---------------------------------------------------------------- libmy/heap.c on its own (heaps larger than the merger harnesses reach)
+for op, nm, hn, tier in ((0, "push", 8, "quick"), (1, "pop", 8, "quick"), (2, "replace", 8, "quick"), (3, "heapify", 6, "quick"), (3, "heapify8", 8, "thorough"), (4, "misc", 8, "quick")):
+    add("heap_" + nm, ["C04", "C05", "C06"], ["tu/heap_step.c"], "h_heap_step", unwind=12, timeout=900, defines=[f"VG_HOP={op}", f"VG_HN={hn}"], tier=tier,
+        strength=f"B: heap operation '{nm}' from an arbitrary valid heap (heapify: arbitrary array) of <= {hn} elements with symbolic keys, ties included",
+        functions=["siftup", "siftdown", "heap_push", "heap_pop", "heap_replace", "heap_heapify", "heap_peek", "heap_get", "heap_size", "heap_add", "heap_clip", "heap_reset"],
+        assumptions=["comparator = total preorder on symbolic int keys (the merger's comparator is a total preorder on keys: group bytes_compare)", "ptrvec growth cut; growth: group vec_step",
+                     "slot i holds item i (any arrangement of distinct items is this one up to renaming)"])
+# ---------------------------------------------------------------- writer sessions through the public interface only (robust to internal reorganisation)
+add("wr_session", ["C10", "C01", "C09", "C08", "C18"], ["tu/writer_session.c", "$REPO/mtbl/varint.c"], "h_writer_session", unwind=12, timeout=1200, slice=2,
+    strength="B: sessions mtbl_writer_init_fd (any start offset, pooled or not) + <= 3 mtbl_writer_add (symbolic keys <= 4 bytes, accepted or refused, any block size) + mtbl_writer_destroy; compression none",
+    functions=["mtbl_writer_init_fd", "mtbl_writer_add", "mtbl_writer_destroy", "_mtbl_writer_finish"] + WR_STEP_FUNCS[1:], assumptions=WR_STEP_ASSUME[:4] + ["dup/lseek modelled (POSIX)"], replay="c10")
